@@ -309,6 +309,25 @@ end
 def dictRepr (d : Doc) : Bool :=
   isAtom d.version && isAtom d.author && isAtom d.repository && reprSecs d.secs
 
+/-- The attribute part of `dictRepr` alone: optional attributes hold `None`, bool, int, float or
+    str. (What is left of `dictRepr` is decided by the writer itself: `writeRefused`.) -/
+def atomsProp (p : Prp) : Bool :=
+  isAtom p.unit && isAtom p.definition && isAtom p.dependency && isAtom p.dependencyValue &&
+  isAtom p.uncertainty && isAtom p.reference && isAtom p.valueOrigin
+
+mutual
+def atomsSec : Sec → Bool
+  | .mk _ _ type d r l rp inc _ _ props secs =>
+    isAtom type && isAtom d && isAtom r && isAtom l && isAtom rp && isAtom inc &&
+    props.all atomsProp && atomsSecs secs
+def atomsSecs : List Sec → Bool
+  | [] => true
+  | s :: r => atomsSec s && atomsSecs r
+end
+
+def atomsDoc (d : Doc) : Bool :=
+  isAtom d.version && isAtom d.author && isAtom d.repository && atomsSecs d.secs
+
 /-- No Property holds odML n-tuples (the bracketed text form of tuples is outside the proved
     round trip; it is covered by the correspondence run only). -/
 def notTupleKind : DtKind → Bool
